@@ -471,9 +471,245 @@ theorem not_errAt_of_own (t : RawTree) (lk : Lookup) (Q : List Gene) (m : Nat) (
   · have := (C08.own_survive t lk Q m p g).1 (by rw [hget]; exact hg) hq
     rw [h] at this; cases this
 
+/-! ### the pairs a parent's selection asks for -/
+
+section tree
+open CTM.RawTree
+variable {t : RawTree}
+
+/-- where `children` raises or no child level exists, `leaves_to_compare` is empty -/
+theorem leafPairs_nil_or (t : RawTree) (hne : t.hierarchy ≠ []) (parent : Option (Level × Node)) :
+    t.leafPairs parent = [] ∨
+      ∃ sibs cl, t.children parent = .ok sibs ∧ t.levelUnder parent = some cl := by
+  cases parent with
+  | none =>
+    right
+    obtain ⟨l0, rest, hh⟩ := List.exists_cons_of_ne_nil hne
+    exact ⟨t.nodesAt l0, l0, by simp [children, hh], by simp [levelUnder, hh]⟩
+  | some ln =>
+    obtain ⟨l, n⟩ := ln
+    by_cases h1 : l ∈ t.levels.map (·.1)
+    · by_cases h2 : n ∈ t.nodesAt l
+      · cases hcl : t.childLevel l with
+        | none => left; simp [leafPairs, hcl]
+        | some cl =>
+          right
+          exact ⟨t.entry l n, cl, children_some_ok_iff.2 ⟨h1, h2, rfl⟩, by simp [levelUnder, hcl]⟩
+      · left
+        have he : t.entry l n = [] := by
+          unfold entry
+          cases hlk : (t.level l).lookup n with
+          | none => rfl
+          | some v =>
+            exfalso; apply h2
+            unfold nodesAt
+            exact Markers.lookup_mem_map_fst _ _ _ hlk
+        simp only [leafPairs, he]
+        split <;> rename_i hs
+        · rfl
+        · split at hs
+          · cases hs
+          · cases hc : t.childLevel l with
+            | none => simp [hc] at hs
+            | some cl =>
+              simp only [hc, Option.map_some, Option.some.injEq] at hs
+              cases hs
+              simp [RawTree.combos2]
+    · left
+      have hl : t.level l = [] := by
+        unfold level
+        cases hlk : t.levels.lookup l with
+        | none => rfl
+        | some v => exact absurd (Markers.lookup_mem_map_fst _ _ _ hlk) h1
+      have he : t.entry l n = [] := by simp [entry, hl]
+      simp only [leafPairs, he]
+      split <;> rename_i hs
+      · rfl
+      · split at hs
+        · cases hs
+        · cases hc : t.childLevel l with
+          | none => simp [hc] at hs
+          | some cl =>
+            simp only [hc, Option.map_some, Option.some.injEq] at hs
+            cases hs
+            simp [RawTree.combos2]
+
+/-- the children of a parent are nodes of the level below it -/
+theorem sibs_sub (w : WF t) (parent : Option (Level × Node)) (sibs : List Node) (cl : Level)
+    (hs : t.children parent = .ok sibs) (hcl : t.levelUnder parent = some cl) :
+    ∃ i, ∃ hi : i < t.hierarchy.length, cl = t.hierarchy[i] ∧ ∀ c ∈ sibs, c ∈ t.nodesAt cl := by
+  have s := strict_of_validate w.valid
+  have hlen := List.length_pos_iff.2 w.hNe
+  cases parent with
+  | none =>
+    have h0 : t.hierarchy.head? = some t.hierarchy[0] := by
+      rw [List.head?_eq_getElem?]; exact List.getElem?_eq_getElem hlen
+    simp only [levelUnder, h0, Option.some.injEq] at hcl
+    subst hcl
+    simp only [children, h0] at hs
+    cases hs
+    exact ⟨0, hlen, rfl, fun _ h => h⟩
+  | some ln =>
+    obtain ⟨l, n⟩ := ln
+    simp only [levelUnder] at hcl
+    have hln := children_some_ok_iff.1 hs
+    have hln : l ∈ t.hierarchy ∧ n ∈ t.nodesAt l ∧ sibs = t.entry l n :=
+      ⟨s.keysSub l hln.1, hln.2⟩
+    obtain ⟨hl, hnm, rfl⟩ := hln
+    obtain ⟨i, hi, rfl⟩ := List.mem_iff_getElem.1 hl
+    rw [childLevel_getElem w.hNodup hi] at hcl
+    have hi1 : i + 1 < t.hierarchy.length := by
+      rcases Nat.lt_or_ge (i+1) t.hierarchy.length with h | h
+      · exact h
+      · rw [List.getElem?_eq_none h] at hcl; cases hcl
+    rw [List.getElem?_eq_getElem hi1] at hcl
+    cases hcl
+    exact ⟨i + 1, hi1, rfl, fun c hc => s.entry_sub hi1 hnm hc⟩
+
+theorem leavesOf_eq (w : WF t) :
+    leavesOf t = t.nodesAt (t.hierarchy[t.hierarchy.length - 1]'(by
+      have := List.length_pos_iff.2 w.hNe; omega)) := by
+  unfold leavesOf
+  rw [leafLevel_eq w.hNe]
+
+theorem leavesOf_nodup (w : WF t) : (leavesOf t).Nodup := by
+  rw [leavesOf_eq w]; exact w.dict.nodesAt_nodup _
+
+/-- every pair `leaves_to_compare` lists is an ordered pair of two leaves of the taxonomy -/
+theorem leafPairs_leaves (w : WF t) (parent : Option (Level × Node)) (a b : Node)
+    (h : (a, b) ∈ t.leafPairs parent) : a ∈ leavesOf t ∧ b ∈ leavesOf t ∧ a < b := by
+  rcases leafPairs_nil_or t w.hNe parent with h0 | ⟨sibs, cl, hs, hcl⟩
+  · rw [h0] at h; cases h
+  · have s := strict_of_validate w.valid
+    obtain ⟨hlt, s0, s1, h0, h1, _, ha, hb⟩ := ((C10.pairs_exact t w parent sibs cl hs hcl).2 a b).1 h
+    obtain ⟨i, hi, rfl, hsub⟩ := sibs_sub w parent sibs cl hs hcl
+    rw [leavesOf_eq w]
+    exact ⟨asLeaves_sub_leaf s w.hNodup hi (hsub s0 h0) ha,
+      asLeaves_sub_leaf s w.hNodup hi (hsub s1 h1) hb, hlt⟩
+
+theorem leafPairs_nodup (w : WF t) (parent : Option (Level × Node)) : (t.leafPairs parent).Nodup := by
+  rcases leafPairs_nil_or t w.hNe parent with h0 | ⟨sibs, cl, hs, hcl⟩
+  · rw [h0]; exact List.nodup_nil
+  · exact (C10.pairs_exact t w parent sibs cl hs hcl).1
+
+end tree
+
+/-! ### `Forall₂` plumbing -/
+
+theorem forall₂_mem_right {α β} {R : α → β → Prop} {xs : List α} {ys : List β}
+    (h : List.Forall₂ R xs ys) : ∀ y ∈ ys, ∃ x ∈ xs, R x y := by
+  induction h with
+  | nil => intro y hy; cases hy
+  | cons h1 _ ih =>
+    intro y hy
+    rcases List.mem_cons.1 hy with rfl | hy
+    · exact ⟨_, List.mem_cons_self, h1⟩
+    · obtain ⟨x, hx, hr⟩ := ih y hy
+      exact ⟨x, List.mem_cons_of_mem _ hx, hr⟩
+
+theorem forall₂_mem_left {α β} {R : α → β → Prop} {xs : List α} {ys : List β}
+    (h : List.Forall₂ R xs ys) : ∀ x ∈ xs, ∃ y ∈ ys, R x y := by
+  induction h with
+  | nil => intro x hx; cases hx
+  | cons h1 _ ih =>
+    intro x hx
+    rcases List.mem_cons.1 hx with rfl | hx
+    · exact ⟨_, List.mem_cons_self, h1⟩
+    · obtain ⟨y, hy, hr⟩ := ih x hx
+      exact ⟨y, List.mem_cons_of_mem _ hy, hr⟩
+
+theorem forall₂_nodup_right {α β} {R : α → β → Prop} {xs : List α} {ys : List β}
+    (h : List.Forall₂ R xs ys) (hinj : ∀ x x' y, R x y → R x' y → x = x') (hn : xs.Nodup) :
+    ys.Nodup := by
+  induction h with
+  | nil => exact List.nodup_nil
+  | cons h1 h2 ih =>
+    have hn' := List.nodup_cons.1 hn
+    refine List.nodup_cons.2 ⟨?_, ih hn'.2⟩
+    intro hy
+    obtain ⟨x, hx, hr⟩ := forall₂_mem_right h2 _ hy
+    exact hn'.1 (hinj _ _ _ h1 hr ▸ hx)
+
+theorem forall₂_length {α β} {R : α → β → Prop} {xs : List α} {ys : List β}
+    (h : List.Forall₂ R xs ys) : xs.length = ys.length := by
+  induction h with
+  | nil => rfl
+  | cons _ _ ih => simp [ih]
+
+theorem forall₂_ok_eq_map {α β ε} (f : α → Except ε β) (d : β) {xs : List α} {ys : List β}
+    (h : List.Forall₂ (fun x y => f x = .ok y) xs ys) :
+    ys = xs.map (fun x => (f x).toOption.getD d) := by
+  induction h with
+  | nil => rfl
+  | cons h1 _ ih => rw [List.map_cons, ← ih, h1]; rfl
+
+/-! ### `_get_taxonomy_idx` -/
+
+/-- `_get_taxonomy_idx` against the file `_prep_output_file` wrote for the same taxonomy never
+raises, and returns, sorted and without repetition, exactly the finder's rows of the pairs
+`leaves_to_compare(parent)` lists -/
+theorem taxonomyIdx_spec {t : RawTree} (w : RawTree.WF t) (names : List Gene) (parent : PKey) :
+    ∃ ks, taxonomyIdx (prepOutput (leavesOf t) names) t parent = .ok ks ∧
+      ks.Pairwise (· < ·) ∧ ks.length = (t.leafPairs parent).length ∧
+      (∀ k, k ∈ ks ↔ ∃ x ∈ t.leafPairs parent, (idxToPair (leavesOf t))[k]? = some x) ∧
+      List.Forall₂ (fun x k => (idxToPair (leavesOf t))[k]? = some x) (t.leafPairs parent)
+        ((t.leafPairs parent).map (fun x => (idxOfPair (prepOutput (leavesOf t) names) x).toOption.getD 0)) := by
+  have hnd := leavesOf_nodup w
+  have hLnd := (idxToPair_spec (leavesOf t) hnd).1
+  obtain ⟨ks0, hks0⟩ := mapME_ok_of_forall (idxOfPair (prepOutput (leavesOf t) names))
+    (t.leafPairs parent) (by
+      rintro ⟨a, b⟩ hx
+      obtain ⟨ha, hb, hab⟩ := leafPairs_leaves w parent a b hx
+      exact idxOfPair_prepOutput_total _ names hnd a b ha hb hab)
+  have hF := (mapME_ok_iff _ _ _).1 hks0
+  simp only [idxOfPair_prepOutput _ names hnd] at hF
+  refine ⟨RawTree.sortNat ks0, by simp only [taxonomyIdx, hks0], ?_, ?_, ?_, ?_⟩
+  · refine strict_of_sorted_nodup (Markers.sortNat_sorted _) (Markers.sortNat_nodup ?_)
+    refine forall₂_nodup_right hF ?_ (leafPairs_nodup w parent)
+    intro x x' k h1 h2
+    rw [h1] at h2; exact Option.some.inj h2
+  · rw [(Markers.sortNat_perm ks0).length_eq, ← forall₂_length hF]
+  · intro k
+    rw [Markers.mem_sortNat]
+    constructor
+    · exact forall₂_mem_right hF k
+    · rintro ⟨x, hx, hk⟩
+      obtain ⟨k', hk', hr⟩ := forall₂_mem_left hF x hx
+      have : k = k' := by
+        obtain ⟨h1, e1⟩ := List.getElem?_eq_some_iff.1 hk
+        obtain ⟨h2, e2⟩ := List.getElem?_eq_some_iff.1 hr
+        exact (List.Nodup.getElem_inj_iff hLnd).1 (e1.trans e2.symm)
+      rw [this]; exact hk'
+  · have : ks0 = (t.leafPairs parent).map
+        (fun x => (idxOfPair (prepOutput (leavesOf t) names) x).toOption.getD 0) := by
+      exact forall₂_ok_eq_map _ 0 ((mapME_ok_iff _ _ _).1 hks0)
+    rw [← this]; exact hF
+
+/-- distinct pairs of one parent have distinct columns (hypothesis of the C12 bridge) -/
+theorem idxInjOn_prepOutput {t : RawTree} (w : RawTree.WF t) (names : List Gene) (parent : PKey) :
+    Bridge.IdxInjOn (fun x => (idxOfPair (prepOutput (leavesOf t) names) x).toOption.getD 0)
+      (t.leafPairs parent) := by
+  have hnd := leavesOf_nodup w
+  intro x hx y hy hxy
+  have key : ∀ z ∈ t.leafPairs parent, (idxToPair (leavesOf t))[
+      (idxOfPair (prepOutput (leavesOf t) names) z).toOption.getD 0]? = some z := by
+    rintro ⟨a, b⟩ hz
+    obtain ⟨ha, hb, hab⟩ := leafPairs_leaves w parent a b hz
+    obtain ⟨k, hk⟩ := idxOfPair_prepOutput_total _ names hnd a b ha hb hab
+    rw [hk]
+    exact (idxOfPair_prepOutput _ names hnd (a, b) k).1 hk
+  have h1 := key x hx
+  have h2 := key y hy
+  simp only at hxy
+  rw [hxy, h2] at h1
+  exact (Option.some.inj h1).symm
+
 /-- example taxonomy: levels 0, 1; nodes 11 ⊃ {33}, 10 ⊃ {31, 30}; leaves 33, 30, 31 -/
 def exTr : RawTree :=
   { hierarchy := [0, 1],
     levels := [(0, [(11, [33]), (10, [31, 30])]), (1, [(33, [103, 104]), (30, [100]), (31, [101, 102])])] }
+
+theorem exTr_wf : RawTree.WF exTr :=
+  ⟨by decide, by decide, by decide, RawTree.dictOK_of_b (by decide)⟩
 
 end CTM.StageFilesPairs
